@@ -56,7 +56,124 @@ def subharnesses(tier):
                         'apps': apps, 'events': events}
                 subs.append(('%s-D%d-A%d-%s-%s' % (topo, D, A, tag,
                                                    g1.ptag(pl)), spec))
+    return subs + _master_subs(tier)
+
+
+RET = 7200
+
+
+def _master_subs(tier):
+    """Master level (real Master / Loader on MemBackend): the retention clock
+    of a server that fails a second time.  Between the two outages the server
+    comes back unchanged, or re-registers with a changed record (servers
+    event -> Loader.reload_server builds a new Server object), or comes back
+    while no master runs (the next master rebuilds the model); every time the
+    state record of the server has to follow.  The time a server went down is
+    kept by the harness (clock at the presence event)."""
+    subs = []
+    for back in ('plain', 'edited_then_up', 'up_then_edited', 'failover',
+                 'failover_edited'):
+        for gap in (600, 3 * RET):
+            for recs in ([[0], []], [[0], [0]], [[0], [1]]):
+                # capacities / demands concrete (two regimes): time is the
+                # subject here
+                for cap in ((8, 8), (4, 8)):
+                    spec = {'level': 'master', 'nservers': 2, 'back': back,
+                            'gap': gap, 'regime_dems': [3, 3, 3, 3],
+                            'servers': [{'memory': c} for c in cap],
+                            'apps': [{'recorded': r, 'memory': 3,
+                                      'retention': '%ds' % RET}
+                                     for r in recs]}
+                    subs.append(('master-second_outage-%s-gap%d-%s-cap%d%d' % (
+                        back, gap, ''.join(
+                            str(len(r)) + (str(r[0]) if r else '')
+                            for r in recs), cap[0], cap[1]), spec))
+                continue
+                spec = {}
+                subs.append(('master-second_outage-%s-gap%d-%s' % (
+                    back, gap, ''.join(str(len(r)) + (str(r[0]) if r else '')
+                                       for r in recs)), spec))
     return subs
+
+
+def _master_harness(S, spec):
+    import g2
+    W = g2.base_store(S, spec)
+    b = W.backend
+    m = g2.new_master(W)
+    g2.start(W, m)
+    down_since = {}
+    holder = {'m': m}
+
+    def on_server(name):
+        app = holder['m'].cell.apps.get(name)
+        return app.server if app is not None else None
+
+    def cycle(tag):
+        mm = holder['m']
+        before = {n: a.server for n, a in mm.cell.apps.items()}
+        g2.cycle(W, mm)
+        now = g2.VT.now
+        for n, srv in before.items():
+            if srv is None or srv not in down_since:
+                continue
+            if b.exists('/server.presence/' + srv):
+                continue
+            if now < down_since[srv] + RET:
+                S.reach('kept_within_retention')
+                S.check('C08:lost_placement_before_retention_expired' + tag,
+                        on_server(n) == srv,
+                        {'app': n, 'server': srv,
+                         'down_for': now - down_since[srv],
+                         'retention': RET})
+            else:
+                S.reach('retention_over')
+                S.check('C08:kept_on_down_server_after_retention' + tag,
+                        on_server(n) != srv,
+                        {'app': n, 'server': srv,
+                         'down_for': now - down_since[srv]})
+
+    def down(j):
+        g2.apply_event(W, holder['m'], ['presence_down', j])
+        down_since[g2.SERVERS[j]] = g2.VT.now
+
+    cycle(':start')
+    down(0)
+    cycle(':first_outage')
+    g2.VT.now += spec['gap']
+    cycle(':first_outage_later')
+    back = spec['back']
+    if back == 'plain':
+        g2.apply_event(W, m, ['presence_up', 0])
+    elif back == 'edited_then_up':
+        g2.apply_event(W, m, ['server_edit', 0])
+        g2.apply_event(W, m, ['presence_up', 0])
+    elif back == 'up_then_edited':
+        g2.apply_event(W, m, ['presence_up', 0])
+        g2.apply_event(W, m, ['server_edit', 0])
+    else:
+        # the server returns while no master runs; a new master takes over
+        b.seed('/server.presence/s0', {})
+        if back == 'failover_edited':
+            data = dict(b.get('/servers/s0'))
+            data['memory'] = data['memory'] - 2
+            W.cap['s0'] = data['memory']
+            b.nodes['/servers/s0'][0] = data
+        m = g2.new_master(W)
+        holder['m'] = m
+        g2.start(W, m)
+    down_since.pop('s0', None)
+    cycle(':back')
+    g2.VT.now += 5 * RET
+    cycle(':back_later')
+    down(0)
+    cycle(':second_outage')
+    g2.VT.now += RET // 2
+    cycle(':second_outage_half')
+    g2.VT.now += RET
+    cycle(':second_outage_over')
+    S.reach('scheduled')
+    S.reach('master_level')
 
 
 def budget(tier, name):
@@ -64,6 +181,8 @@ def budget(tier, name):
 
 
 def harness(S, spec):
+    if spec.get('level') == 'master':
+        return _master_harness(S, spec)
     W = g1.build(S, spec)
     for ev in spec['events']:
         g1.apply_event(W, tuple(ev))
@@ -79,9 +198,12 @@ META = {
         'scheduler.Cell.schedule', 'Cell._handle_inactive_servers',
         'Cell._handle_blacklisted_apps', 'Cell._find_placements',
         'Node.set_state', 'Server.set_state', 'Bucket.put', 'Server.put',
-        'Server.remove'],
+        'Server.remove', 'Loader.adjust_server_state',
+        'Loader.reload_server', 'Loader._record_server_state',
+        'Master.process_server_presence', 'Master.load_model (fail-over)'],
     'reach_required': ['scheduled', 'kept_on_down_server',
                        'moved_off_down_server', 'on_frozen_server',
                        'unschedule_on_frozen', 'blacklisted_kept_off',
-                       'eviction_put'],
+                       'eviction_put', 'master_level',
+                       'kept_within_retention', 'retention_over'],
 }
